@@ -2151,6 +2151,7 @@ fn c20(a: &ShardArgs) -> Result<(), String> {
             callbacks::association_adapters(a, &mut r);
             callbacks::application_adapter(a, &mut r);
             callbacks::information_adapter(a, &mut r);
+            callbacks::promise_adapters(a, &mut r);
         }
         if !cfg!(miri) {
             callbacks::control_adapter(a, &mut r, a.n(12) as usize);
